@@ -12,3 +12,20 @@ package outputstream
 //@   requires nonempty: os != nil && len(msgs) > 0
 //@   ensures noerror: result == nil
 //@   modifies OutputStream.lastseen[os], OutputStream.batch[os], maptype(map[uint64]*messageBatch)
+
+// C18 (part): decoding a batch gives every message its own recipient set - a
+// freshly made map, distinct from the map of every other message of the
+// batch (so adding a recipient to one message never shows up on another).
+// The byte-level round trip of the codec is not under contract (DESIGN.md).
+//@ func unmarshalMessageBatch
+//@   ensures nonnil: result != nil
+//@   ensures ownset: forall k int :: 0 <= k && k < len(result.Messages) ==> result.Messages[k].InterestingFor != nil && fresh(result.Messages[k].InterestingFor)
+//@   ensures separate: forall a int, b int :: 0 <= a && a < b && b < len(result.Messages) ==> result.Messages[a].InterestingFor != result.Messages[b].InterestingFor
+//@   loop for i < len(result.Messages)
+//@     invariant 0 <= i && i <= len(result.Messages)
+//@     invariant forall k int :: 0 <= k && k < i ==> result.Messages[k].InterestingFor != nil && fresh(result.Messages[k].InterestingFor) && allocated(result.Messages[k].InterestingFor)
+//@     invariant forall a int, b int :: 0 <= a && a < b && b < i ==> result.Messages[a].InterestingFor != result.Messages[b].InterestingFor
+//@   loop for j < lenInterestingFor
+//@     invariant 0 <= i && i < len(result.Messages) && msg.InterestingFor != nil && fresh(msg.InterestingFor) && allocated(msg.InterestingFor)
+//@     invariant forall k int :: 0 <= k && k < i ==> result.Messages[k].InterestingFor != nil && fresh(result.Messages[k].InterestingFor) && allocated(result.Messages[k].InterestingFor) && result.Messages[k].InterestingFor != msg.InterestingFor
+//@     invariant forall a int, b int :: 0 <= a && a < b && b < i ==> result.Messages[a].InterestingFor != result.Messages[b].InterestingFor
